@@ -263,6 +263,10 @@ func IteByte(c bool, a, b byte) byte {
 	return b
 }
 
+// FireTimerNow fires one pending timer at once (no quiescing before or after);
+// may be called from any goroutine.
+func FireTimerNow() bool { return false }
+
 // FireTimerN fires the i-th pending timer (in creation order) after quiescing.
 func FireTimerN(i int) bool { time.Sleep(50 * time.Millisecond); return false }
 
